@@ -101,3 +101,55 @@ def check(text, alphabet=False):
         else:
             problems.append("unknown statement %r" % raw)
     return problems
+
+
+def check_des(text):
+    """well-formedness of a NUPACK-style .des specification: every line readable, names unique per kind, every structure
+    balanced and assigned exactly once, every assigned sequence defined, as many nucleotides assigned as the structure has positions"""
+    import semantics
+    problems = []
+    try:
+        lines = semantics.read_des(text)
+    except ValueError as e:
+        return ["unreadable: %s" % e]
+    for kind in ("structure", "sequence"):
+        names = [n for k, n, x in lines if k == kind]
+        for n in sorted(set(names)):
+            if names.count(n) > 1:
+                problems.append("%s %s defined twice" % (kind, n))
+    defined = set()
+    for k, n, x in lines:
+        if k in ("structure", "sequence"):
+            defined.add((k, n))
+        elif k == "assign":
+            if ("structure", n) not in defined:
+                problems.append("assignment to undefined or later-defined structure %s" % n)
+            for it in x:
+                nm = it[:-1] if it.endswith("*") else it
+                if ("sequence", nm) not in defined:
+                    problems.append("reference to undefined or later-defined sequence %s" % nm)
+        elif k == "bound" and ("structure", n) not in defined:
+            problems.append("bound on undefined structure %s" % n)
+    # sizes and balance (the code alphabet of templates is not one of C09's clauses: letters are not interpreted here)
+    seqlen = {n: len(x) for k, n, x in lines if k == "sequence"}
+    structs = {n: x for k, n, x in lines if k == "structure"}
+    assigned = {}
+    for k, n, x in lines:
+        if k == "assign":
+            assigned.setdefault(n, []).append(x)
+    for n, dp in structs.items():
+        depth, ok = 0, set(dp) <= set(".()+")
+        for c in dp:
+            depth += (c == "(") - (c == ")")
+            ok = ok and depth >= 0
+        if not ok or depth != 0:
+            problems.append("structure %s is not a balanced dot-paren string" % n)
+        if len(assigned.get(n, [])) != 1:
+            problems.append("structure %s has %d sequence assignments" % (n, len(assigned.get(n, []))))
+            continue
+        items = assigned[n][0]
+        if all((it[:-1] if it.endswith("*") else it) in seqlen for it in items):
+            total = sum(seqlen[it[:-1] if it.endswith("*") else it] for it in items)
+            if total != len(dp.replace("+", "")):
+                problems.append("structure %s has %d positions but %d nucleotides assigned" % (n, len(dp.replace("+", "")), total))
+    return problems
